@@ -7,6 +7,27 @@ import e2e_props
 from vlib import DRIVER, run_lines
 
 
+def fam_blackhole_idle(rng, i):
+    """`blackhole` family restricted to what exercises the idle timer: the handshake completes, then a total blackhole
+    (mostly permanent) in one or both directions; idle timeouts from well below to well above 3 x PTO"""
+    start = rng.choice([70, 120, 300, 800, 1500])
+    idle = rng.choice([400, 1000, 2000, 5000, 12000])
+    p = {
+        "seed": rng.randrange(1, 2**40), "bidi": rng.choice([1, 2]), "uni": rng.choice([0, 1]), "size": rng.choice([2000, 30000, 120000]),
+        "chunk": 2000, "delay_ms": rng.choice([5, 10, 25, 60]),
+        "s.bidi_remote": rng.choice([0, 500, 4000]), "s.data_window": rng.choice([0, 3000]), "s.max_bidi_remote": rng.choice([0, 1]),
+        "c.max_idle_ms": idle, "s.max_idle_ms": idle,
+        "drop_pm": rng.choice([0, 50]), "faults_until_ms": 1500, "deadline_ms": 200000,
+    }
+    d = rng.choice([0, 1, 2])
+    end = 100000000 if rng.random() < 0.8 else start + rng.choice([200, 1500])
+    p["bh"] = f"{start}:{end}:{d}"
+    return e2e_props._nz(p)
+
+
+e2e_props.FAMILIES.setdefault("blackhole_idle", fam_blackhole_idle)
+
+
 def run(ctx):
     stats = {"endpoints": 0, "idle_closes_checked": 0, "skipped_handshake_incomplete": 0, "ops": 0}
 
@@ -45,8 +66,8 @@ def run(ctx):
                     bad.append(("e2e:c02:idle-trace:bad-op", f"acceptor answered {o!r} to {op!r}"))
         return bad
 
-    traces = e2e_props.run_family(ctx, "blackhole", [o_idle_trace], 24, 400, salt="/idle",
-                                  name="T:idle-trace: the Lean idle-timer model accepts the idle closes of real endpoints (blackhole family)")
+    traces = e2e_props.run_family(ctx, "blackhole_idle", [o_idle_trace], 24, 400,
+                                  name="T:idle-trace: the Lean idle-timer model accepts the idle closes of real endpoints (blackhole family, handshake completed)")
     ctx.extra["idle_trace"] = stats
     if traces:
         ctx.oblige("correspond", f"T:idle-trace exercised the model: {stats['idle_closes_checked']} idle-timeout closes checked on "
